@@ -126,6 +126,15 @@ def run(facts, rep, tier, ctx):
         if ob_["rule"] in ("R20.2", "R20.4") and ob_["fn"].startswith("path::VfsPath"):
             n += 1
             rep.ob("R18.1e", ob_["fn"], ob_["key"].split("|")[2], ob_["ok"], ob_["detail"], ob_["loc"])
+    # ... copy_dir / move_dir create their destination directory before anything else (whatever the source holds): copying an
+    # *empty* directory onto the read-only view is refused like any other copy, not "done" because nothing had to be created
+    scr5 = _R("c5")
+    _PR(facts, _W(facts, False), D).generic_routes(scr5, "G")
+    for ob_ in scr5.obligations:
+        d5 = ob_["key"].split("|")[2]
+        if d5.split(":")[0] in ("copy_dir", "move_dir"):
+            n += 1
+            rep.ob("R18.1g", ob_["fn"], d5, ob_["ok"], ob_["detail"], ob_["loc"])
     # walks equal those of a physical filesystem on the same folder: the walk descends into every directory it is given
     from . import c05 as _c05w
     _c05w.walk_rules(facts, _c05w._P5(rep, "R18.6w"), _W(facts, False), D)
